@@ -86,7 +86,9 @@ def workbook(draw):
                 row.append(draw(st.sampled_from(STRINGS)))
             else:
                 row.append(draw(num))
-        if all(v is None for v in row):
+        if 0 < r < nrows - 1 and draw(st.integers(0, 7)) == 0:
+            row = [None] * len(cols)       # a completely empty row between data rows still is a data row (record {})
+        elif all(v is None for v in row):
             j = draw(st.integers(0, len(cols) - 1))
             k = cols[j]['kind']
             row[j] = {'formula': 'H2O', 'preset': 'harmonic', 'mode': MODEL_VALUES.get(cols[j]['header'], ['x'])[0]}.get(k, 1.5)
@@ -255,7 +257,7 @@ CLAUSES = [
            'workbooks written with openpyxl: 1-60 data rows, optional comment row, random subset and order of ordinary columns '
            '(names free of the special substrings) and special columns (element.X, formula, vib_wavenumber x0-30, rot_temperature '
            'x0-3, list.name[.i], dict.name.key, nasa.a_low/a_high.i, statmech_model presets, per-mode model class names), padded '
-           'headers and string cells, numeric / string / empty cells (empty-cell probability 0-0.8, each row keeps one cell), any '
+           'headers and string cells, numeric / string / empty cells (empty-cell probability 0-0.8; the first and last row keep one cell, rows in between may be completely empty), any '
            'sheet name; read as written and with the rows reversed (second call in the same process). Oracle: reference mapping from '
            'the generated grid to the expected list of records (one per row, in order, exactly the non-empty cells). Non-trivial = '
            '>= 2 rows with different empty-cell patterns and >= 2 kinds of special column', quick_shards=6),
